@@ -87,6 +87,26 @@ func c11Blocks(thorough bool) []c11Block {
 		bs = append(bs, c11Rule(c11R, "@rx", "OLD", 0, chain))
 	}
 	bs = append(bs, c11Rule("123457", "@pm", "OLDN", 0, []string{"@rx"}))
+	// the word SecRule in a comment or an action between the starter and its chained rule is not a rule
+	withNoise := func(noise string) c11Block {
+		b := c11Rule(c11R, "@rx", "OLD", 0, []string{"@rx", "@rx"})
+		b.Name += " noise=" + noise
+		var lines []string
+		shift := map[int]int{}
+		for i, l := range b.Lines {
+			shift[i] = len(lines)
+			lines = append(lines, l)
+			if i == 1 {
+				lines = append(lines, noise)
+			}
+		}
+		for i := range b.Sec {
+			b.Sec[i].Line = shift[b.Sec[i].Line]
+		}
+		b.Lines = lines
+		return b
+	}
+	bs = append(bs, withNoise(`    msg:'see SecRule 123457',\`), withNoise(`    # SecRule ARGS "@rx disabled" \`), withNoise(`    tag:'chain',\`))
 	return bs
 }
 
